@@ -17,7 +17,7 @@ def worlds_default(tier, seed, stream, n_quick, n_thorough, tweak=None):
 def tweak_threads(rng, w, i):
     # most runs single-threaded (exact log comparison); some with several workers (property checkers only)
     if i % 5 == 4:
-        w.threads = rng.choice([0, 2, 3, 8])
+        w.threads = rng.choice([0, 2, 3, 8, 2**64 - 1, 10**9])
         if i % 10 == 9:
             # the interleaving of the workers' file operations, write locks and counter updates is chosen by a seeded
             # scheduler instead of the OS (replayable; explores preemption between any two file operations)
@@ -28,7 +28,11 @@ def tweak_resize(rng, w, i):
 
 # judged on the implementation's outcome alone (the run must return): the model would have to materialise gigabytes of
 # padding zeros, or is quadratic in the number of table entries (list-based maps) where the real code uses hash maps
-NOT_MODELLED = ("enormous declared length", "many segments in one piece", "metadata fault")
+NOT_MODELLED = ("enormous declared length", "many segments in one piece", "metadata fault", "export paths beyond PATH_MAX")
+
+def with_threads(w, n):
+    w.threads = n
+    return w
 
 def run_worlds(worlds, jobs=None):
     jobs = jobs or C.NCPU
@@ -60,6 +64,8 @@ def run_worlds(worlds, jobs=None):
         c.result = r
         if getattr(r, "ghost_changed", False):
             c.fails = c.fails + ["c03-outside-changed"]        # a symbolic link below a scan directory was replaced or removed
+        if getattr(r, "cwd_changed", False):
+            c.fails = c.fails + ["c03-cwd-changed"]            # the run changed the working directory of the calling process
         cases.append(c)
     return cases
 
@@ -208,6 +214,8 @@ def crash_worlds(tier, seed):
             w = W.gen_world_big_files(rng)
         if i % 8 == 2:
             w = W.gen_world_linked_cross_seed(rng)
+        if i % 8 == 5:
+            w = W.gen_world_zero_piece_stale(rng)
         w.threads = 1
         base = W.execute(w)
         _, m = count_ops(base)
@@ -376,9 +384,10 @@ EXTRA_MODULES = {"C14": ["TB.Props.C14run", "TB.Props.Outcome"], "C03": ["TB.Pro
                  "C05": ["TB.Props.C05writes"], "C06": ["TB.Props.C06layout"]}
 
 PROPS = {
-    "C01": dict(module="TB.Props.C01", theorems=["C01_write_sound", "C01_gate", "C01_writer_cursor", "C01_run"], clauses=["c01-"],
+    "C01": dict(module="TB.Props.C01", theorems=["C01_write_sound", "C01_gate", "C01_writer_cursor", "C01_run"], clauses=["c01-", "c03-cwd"],
                 worlds=lambda t, s: [W.gen_world_misfiled(Rng(s, "c01-misfiled", i)) for i in range(60 if t == "quick" else 1200)]
                                     + [W.gen_world_short_last_digest(Rng(s, "c01-cut", i)) for i in range(10 if t == "quick" else 100)]
+                                    + [W.gen_world_path_max(Rng(s, "c01-pathmax", i)) for i in range(4 if t == "quick" else 40)]
                                     + worlds_default(t, s, "c01", 400, 8000, tweak_threads)),
     "C02": dict(module="TB.Props.C02", theorems=["C02_search_sound", "C02_search_complete", "C02_piece"], clauses=["c02-"],
                 worlds=lambda t, s: [W.gen_world_many_candidates(Rng(s, "c02-many", k), k) for k in (2, 260)]
@@ -387,14 +396,18 @@ PROPS = {
                                     + [W.gen_world_two_devices(Rng(s, "c02-dev", i)) for i in range(8 if t == "quick" else 80)]
                                     + meta_fault_worlds(t, s)
                                     + [W.gen_world_scan_root_link(Rng(s, "c02-link", i)) for i in range(20 if t == "quick" else 400)]
+                                    + [W.gen_world_zero_piece_stale(Rng(s, "c02-zero", i)) for i in range(12 if t == "quick" else 240)]
                                     + [W.gen_world_mount_below_scan(Rng(s, "c02-mnt", i)) for i in range(4 if t == "quick" else 40)]
                                     + worlds_default(t, s, "c02", 400, 8000, tweak_threads), post=check_meta_faults),
     "C03": dict(module="TB.Props.C03", theorems=["C03_confined", "C03_readonly", "C03_plain"], clauses=["c03-"], worlds=lambda t, s: worlds_default(t, s, "c03", 300, 6000, tweak_threads) + fault_worlds(t, s)
-                                    + [W.gen_world_c16(Rng(s, "c03-args", i), i) for i in range(45 if t == "quick" else 900)],
+                                    + [W.gen_world_c16(Rng(s, "c03-args", i), i) for i in range(45 if t == "quick" else 900)]
+                                    + [W.gen_world_dotdot_after_link(Rng(s, "c03-dotdot", i)) for i in range(12 if t == "quick" else 240)]
+                                    + [W.gen_world_path_max(Rng(s, "c03-pathmax", i)) for i in range(3 if t == "quick" else 30)],
                 unit_stream=lambda t, s: unit.load_stream("quick", s)[: 3000 if t == "quick" else 8000]),
     "C04": dict(module="TB.Props.C04", theorems=["C04_export_first", "C04_skip", "C04b_untouched"], clauses=["c04-"],
                 worlds=lambda t, s: [W.gen_world_cross_seed(Rng(s, "c04-cross", i)) for i in range(40 if t == "quick" else 800)]
                                     + [W.gen_world_linked_cross_seed(Rng(s, "c04-linked", i)) for i in range(20 if t == "quick" else 400)]
+                                    + [W.gen_world_mirrored_export(Rng(s, "c04-mirror", i)) for i in range(12 if t == "quick" else 240)]
                                     + fault_worlds(t, s)
                                     + worlds_default(t, s, "c04", 300, 6000, tweak_threads), post=lambda cases: drop_rewritten_under_faults(cases)),
     # C06 at run level: the work list evaluated by a run is the layout — every piece of every torrent, once (the counters' total,
@@ -418,6 +431,7 @@ PROPS = {
     "C14": dict(module="TB.Props.C14", theorems=["C14_abort", "C14_pass2_ops", "C14_noflag"], clauses=["c14-", "c16-"],
                 worlds=lambda t, s: [W.gen_world_resize_huge(Rng(s, "c14-huge", i)) for i in range(6 if t == "quick" else 30)]
                                     + [W.gen_world_many_short_images(Rng(s, "c14-many", i)) for i in range(2 if t == "quick" else 20)]
+                                    + [W.gen_world_sparse_placeholder(Rng(s, "c14-sparse", i)) for i in range(4 if t == "quick" else 40)]
                                     + [W.gen_world_dup_path_resize(Rng(s, "c14-dup", i)) for i in range(40 if t == "quick" else 400)]
                                     + [W.gen_world_c14(Rng(s, "c14", i)) for i in range(400 if t == "quick" else 8000)]
                                     + resize_fault_worlds(t, s)),
@@ -427,7 +441,7 @@ PROPS = {
                 worlds=lambda t, s: [W.gen_world_many_segments(Rng(s, "c16-segs", i), n) for i, n in enumerate([3000, 30000] if t == "quick" else [3000, 30000, 60000])]
                                     + [W.gen_world_short_match(Rng(s, "c16-short", i)) for i in range(6)]
                                     + [W.gen_world_sparse_candidate(Rng(s, "c16-sparse", i)) for i in range(6)]
-                                    + [W.gen_world_c16(Rng(s, "c16", i), i) for i in range(400 if t == "quick" else 8000)],
+                                    + [with_threads(W.gen_world_c16(Rng(s, "c16", i), i), [1, 1, 0, 2, 2**64 - 1][(i // 15) % 5]) for i in range(400 if t == "quick" else 8000)],
                 runner=lambda ws: run_with_cli(ws, 66 if len(ws) <= 1000 else 660), with_bin=True),
     "C13": dict(module="TB.Props.C13", theorems=["C13_all_accounted", "C13_local", "C13_found_all_ok"], clauses=["c13-", "c01-", "c16-", "c12-", "c04-lost", "c02-walk"], worlds=lambda t, s: fault_worlds(t, s) + partial_write_worlds(t, s, "c13-partial") + meta_fault_worlds(t, s), post=check_meta_faults),
     "C11": dict(module="TB.Props.C11", theorems=["C11_replay", "C11_prefix_sound"], clauses=["c11-", "c02-", "c01-"], worlds=crash_worlds, runner=run_crash_cases),
@@ -556,7 +570,7 @@ def gen_exec_world(rng, i):
         w.threads = rng.choice([2, 2, 3, 4, 6])
     else:
         w = W.gen_world(rng, ntorrents=rng.choice([1, 1, 2]))
-        w.threads = rng.choice([0, 1, 2, 2, 3, 3, 4, 5, 8, 16])
+        w.threads = rng.choice([0, 1, 2, 2, 3, 3, 4, 5, 8, 16, 2**64 - 1, 50000])
     w.sched = rng.next() % (2**32)
     w.tag = "threads=%d" % w.threads
     return w
